@@ -347,7 +347,9 @@ def run_cases(
     pending = list(files)
     running: List[Tuple[int, pathlib.Path, subprocess.Popen]] = []
     while pending or running:
-        while pending and len(running) < NCPU:
+        # coqc needs up to several GB on shards with deeply nested terms: bound the number
+        # of concurrent shards (thorough volumes otherwise exhaust the memory)
+        while pending and len(running) < min(NCPU, int(os.environ.get("VERIF_CASES_PAR", "8"))):
             k, path = pending.pop(0)
             pr = subprocess.Popen(
                 ["timeout", str(timeout), "coqc", "-Q", str(THEORIES), "Acg", path.name],
